@@ -206,7 +206,7 @@ fn scan_spans<'a, I: Iterator<Item = CapturedSpan<'a>> + DoubleEndedIterator>(
 
 impl Suite for Pred {
     fn gen(&self, rng: &mut Rng, tier: Tier, idx: usize, _focus: &str) -> Vec<String> {
-        let gcfg = GenCfg { max_ops: if tier == Tier::Quick { 30 } else { 80 }, max_fields: 3, roots: true, clones: false, rich_values: false };
+        let gcfg = GenCfg { max_ops: if tier == Tier::Quick { 30 } else { 80 }, max_fields: 3, roots: true, clones: false, rich_values: false, leak_enters: false };
         let mut prog = program::gen_program(rng, &gcfg);
         // make names/targets line up with the atoms of the predicate table
         for (i, s) in prog.sites.iter_mut().enumerate() {
@@ -215,6 +215,36 @@ impl Suite for Pred {
             }
             if !s.is_span && !s.fields.contains(&"message".to_owned()) && rng.chance(1, 2) {
                 s.fields = vec!["message".into(), "f0".into()];
+            }
+        }
+        // an item that carries a string field called `log.target` (as events bridged from the `log`
+        // crate do): `target(..)` is about the metadata target all the same
+        if rng.chance(1, 4) {
+            let ks = rng.below(prog.sites.len());
+            prog.sites[ks].fields = vec!["log.target".into(), "f0".into()];
+            let other = (*rng.pick(&["other", "app", "app::db", "my_app"])).to_owned();
+            for op in &mut prog.ops {
+                if let program::POp::New { k, vals, .. } | program::POp::Evt { k, vals, .. } = op {
+                    if *k == ks {
+                        *vals = vec![(0, format!("str:{}", crate::proto::hex(other.as_bytes())))];
+                    }
+                }
+            }
+            for op in &mut prog.ops {
+                if let program::POp::Rec { vals, .. } = op {
+                    vals.retain(|(i, _)| *i < 2);
+                }
+            }
+        }
+        // values the predicates' constants could be confused with: 128-bit numbers whose low 64
+        // bits equal a small constant, strings where a number is expected, a `log.target` field
+        for op in &mut prog.ops {
+            if let program::POp::New { vals, .. } | program::POp::Rec { vals, .. } | program::POp::Evt { vals, .. } = op {
+                for (_, tok) in vals.iter_mut() {
+                    if tok != "empty" && rng.chance(1, 12) {
+                        *tok = (*rng.pick(&["i128:18446744073709551617", "u128:18446744073709551617", "u128:18446744073709551618", "i128:-18446744073709551615", "i128:-1", "str:31"])).to_owned();
+                    }
+                }
             }
         }
         let mut lines = prog.lines();
